@@ -43,7 +43,10 @@ Inductive bm_op :=
 | ODelete (k : Z) | ODeleteIfPresent (k : Z)
 | OMerge (by_bmap : bool) (m : bmap) (f : option (Z -> Z -> bool))
 | OReplace (k ov nv : Z)
-| OEqual (by_bmap : bool) (m : bmap).
+| OEqual (by_bmap : bool) (m : bmap)
+(* callbacks that look at the LIVE map through ToMetaMap while the method runs: del = fun _ _ => g (len(m)) *)
+| ODeleteFuncLive (g : nat -> bool)
+| OForEachLive.
 
 Inductive bm_out :=
 | BNone | BBool (b : bool) | BInt (z : Z) | BIntBool (z : Z) (b : bool) | BList (l : list Z)
@@ -82,6 +85,23 @@ Definition merge_loop (f : option (Z -> Z -> bool)) (x src : amap) : amap :=
                             | None => acc
                             end
                end) src x.
+
+(* DeleteFunc with a callback that reads the live size: every pair is visited once; a condemned pair is gone before
+   the next callback runs (delete during the range loop). Returns the map and the sizes the callback saw. *)
+Fixpoint delete_live (g : nat -> bool) (l acc : amap) : amap * list nat :=
+  match l with
+  | [] => (acc, [])
+  | kv :: t => let sz := length acc in
+               let '(r, tr) := delete_live g t (if g sz then a_del (fst kv) acc else acc) in
+               (r, sz :: tr)
+  end.
+
+(* what any visiting order gives when the callback depends on the live size only: the first d visited pairs go, where d
+   = how long g stays true while the size counts down; the sizes seen are n, n-1, ..., n-d, n-d, ... (one per pair) *)
+Fixpoint drops (g : nat -> bool) (size fuel : nat) : nat :=
+  match fuel with O => O | S f => if g size then S (drops g (size - 1) f) else O end.
+Fixpoint live_trace (g : nat -> bool) (size calls : nat) : list nat :=
+  match calls with O => [] | S c => size :: live_trace g (if g size then (size - 1)%nat else size) c end.
 
 (* NewUnsafeAnyBMapByMap: a nil argument becomes a fresh empty map *)
 Definition wrap (b : bmap) : bmap := match b with None => Some [] | _ => b end.
@@ -137,6 +157,12 @@ Definition bmap_step (st : bmap) (o : bm_op) : bmap * bm_out :=
       | None => (st, BBool false)
       end
   | OEqual _ a => (st, BBool (equal_loop Z.eqb m (mv a)))
+  | ODeleteFuncLive g =>
+      match st with
+      | Some a => let '(r, tr) := delete_live g a a in (Some r, BList (map Z.of_nat tr))
+      | None => (None, BList [])
+      end
+  | OForEachLive => (st, BList (map (fun _ => Z.of_nat (length m)) m))
   end.
 
 (* ---------- specification: finite maps ---------- *)
@@ -198,6 +224,13 @@ Definition fmap_step (st : bmap) (o : bm_op) : bmap * bm_out :=
       | None => (st, BBool false)
       end
   | OEqual _ a => (st, BBool (f_equal Z.eqb m (mv a)))
+  | ODeleteFuncLive g =>
+      let n := length m in
+      match st with
+      | Some _ => (Some (skipn (drops g n n) m), BList (map Z.of_nat (live_trace g n n)))
+      | None => (None, BList [])
+      end
+  | OForEachLive => (st, BList (repeat (Z.of_nat (length m)) (length m)))
   end.
 
 (* fold a step function over an operation list, collecting the outputs *)
